@@ -45,7 +45,8 @@ class RuleSet:
             r = self.rules[i]
             pre = self._scprefix(r)
             j = i + 1
-            if use_scopes and pre and rng.random() < 0.3:
+            # (nor may a scope open right after a '|' action: flex reads `<SC>{` as the next rule there)
+            if use_scopes and pre and rng.random() < 0.3 and not (i > 0 and self.rules[i - 1].get('chain')):
                 while j < n and self._scprefix(self.rules[j]) == pre and rng.random() < 0.7:
                     j += 1
                 while j > i + 1 and self.rules[j - 1].get('chain'):
@@ -82,11 +83,14 @@ class RuleSet:
         # line number (1-based) of each rule in the file just printed
         base = ('\n'.join(s1) + '\n%%\n').count('\n')
         self.rule_lines = {}
+        self.rule_last_lines = {}
         ln = base
         for pos, l in enumerate(lines2):
             ln += 1
             if pos in self._rule_pos:
                 self.rule_lines[self._rule_pos[pos]] = ln
+                # a pattern with a (?x: group may run over several lines; flex names the last one
+                self.rule_last_lines[self._rule_pos[pos]] = ln + l.count('\n')
             ln += l.count('\n')
         return text
 
@@ -121,7 +125,12 @@ def gen_ruleset(rng, nrules=None, depth=None, csize=256, p_sc=0.4, p_bol=0.15, p
     if rng.random() < p_sc:
         for k in range(rng.choice([1, 1, 2, 3])):
             rs.scs.append(('SC%d' % (k + 1), rng.random() < 0.5))
-    g = patgen.Gen(rng, csize=csize, allow_nul=allow_nul, caseins=rs.caseins,
+    # a third of the 8-bit rule sets spell only ASCII characters in their patterns (bytes >= 0x80 then
+    # reach the scanner through `.`, negated classes and the default rule only): flex has no reason
+    # to refuse those if it picks a 7-bit scanner by mistake
+    gsize = 128 if csize == 256 and rng.random() < 0.33 else csize
+    rs.ascii_patterns = gsize != csize
+    g = patgen.Gen(rng, csize=gsize, allow_nul=allow_nul, caseins=rs.caseins,
                    union_negated=union_negated, maxrep=maxrep, allow_flags=not rs.posix_prec)
     if nrules is None:
         nrules = rng.choice([1, 2, 3, 4, 5, 6, 8, 10])
